@@ -72,12 +72,14 @@ class Proto(typing.Protocol):
 
 
 CLASSES = {"K0": K0, "K1": K1, "K2": K2, "K3": K3, "Thing": Thing, "int": int, "O": object, "list": list, "dict": dict,
-           "Iterable": typing.Iterable.__origin__, "KA": KA, "KA1": KA1, "KV": KV, "KM": KM, "KM1": KM1, "Colour": Colour, "Proto": Proto}
+           "Iterable": typing.Iterable.__origin__, "Meta": Meta, "KA": KA, "KA1": KA1, "KV": KV, "KM": KM, "KM1": KM1, "Colour": Colour, "Proto": Proto}
 
 POOL = [["type", "K0"], ["type", "K1"], ["type", "K2"], ["type", "K3"], "type", ["type", "O"], "O", ["type", "list"],
         ["type", ["gen", "list", "K0"]], ["type", ["gen", "list", "K1"]], ["type", ["gen", "dict", "K0", "K1"]],
         ["type", ["gen", "Iterable", "K0"]], ["type", ["gen", "Thing", "K0"]], ["type", ["gen", "list", ["gen", "list", "K0"]]], "K0",
-        ["type", "KA"], ["type", "KM"], ["type", ["gen", "list", "KA"]]]
+        ["type", "KA"], ["type", "KM"], ["type", ["gen", "list", "KA"]],
+        # a metaclass as the annotation: accepts the classes that are its instances, whether or not a type[...] method is around
+        "Meta"]
 
 PASSED = [
     ("K0", K0), ("K1", K1), ("K2", K2), ("K3", K3), ("int", int), ("list", list), ("dict", dict), ("object", object),
@@ -226,7 +228,7 @@ def main(tier):
         PROP, tier, "model_checking", merged, t0,
         rule="annotation pool {type[C] over a 4-class hierarchy, bare type, type[object], object, type[list], type[list[C]], "
              "type[dict[C,C']], type[Iterable[C]], type[Thing[C]] (user generic), type[list[list[C]]], an ordinary class, type[ABC], "
-             "type[class with a custom metaclass], type[list[ABC]]}; passed classes include ABCs, a virtual subclass, classes with a custom "
+             "type[class with a custom metaclass], type[list[ABC]], a metaclass itself}; passed classes include ABCs, a virtual subclass, classes with a custom "
              "metaclass, an Enum, a runtime protocol, the metaclass itself; all method "
              "sets of <= 3 over one position, pairs over two positions (type[...] first or second, ordinary class in the other), "
              "a second parameter literally named 'type', call_next chains and recurse into tuple elements; passed objects: classes, parametrised generics, nested "
